@@ -258,9 +258,51 @@ def run(repo, rep, tier):
             writers.append(('+=', call_name(n.value) if isinstance(n.value, ast.Call) else unparse(n.value), n))
         elif isinstance(n, ast.Assign) and unparse(n.targets[0]) == 'algorithm_recommendation_suppress_list':
             writers.append(('=', unparse(n.value), n))
-    got = sorted((k, v) for k, v, n in writers)
-    want = sorted([('=', '[]'), ('append', "'diffie-hellman-group-exchange-sha256'"), ('+=', '_get_chacha_ciphers_not_enabled'), ('+=', '_get_cbc_ciphers_not_enabled'), ('+=', '_get_etm_macs_not_enabled')])
-    rep.check('suppress', 'suppression list only receives the explained GEX name and not-enabled Terrapin-shaped names', got == want, writers[0][2] if writers else ppf, 'suppression list writers: %s' % got)
+    # contents of the returned suppression list, by abstract interpretation of post_process_findings (sa/listinterp.py) over
+    # {kex present} x {GEX-SHA256 offered} x {modulus recorded: none / 2048 / 3072} x {banner: none / no software / OpenSSH / other}:
+    # exactly the not-enabled Terrapin-shaped names, plus the GEX name iff the documented OpenSSH 2048-bit fallback was observed
+    from sa.listinterp import Interp
+    from sa.abseval import Opaque, Unknown
+    GEXN = 'diffie-hellman-group-exchange-sha256'
+    ENABLED = ('_get_chacha_ciphers_enabled', '_get_cbc_ciphers_enabled', '_get_etm_macs_enabled')
+    NOT_ENABLED = ('_get_chacha_ciphers_not_enabled', '_get_cbc_ciphers_not_enabled', '_get_etm_macs_not_enabled')
+    bad = []
+    nrows = 0
+    for kexp, gexin, size, ban in itertools.product([False, True], [False, True], [None, 2048, 3072], ['none', 'nosoft', 'OpenSSH_8.9p1', 'dropbear_2022.83']):
+        if not kexp and (gexin or size is not None):
+            continue
+        nrows += 1
+
+        def hook(call, env, interp):
+            nm = call_name(call)
+            if nm in ENABLED:
+                return (True, [])
+            if nm in NOT_ENABLED:
+                return (True, ['<%s>' % nm])
+            return None
+        env = {'algs.ssh2kex': Opaque() if kexp else None, 'algs.ssh2kex is not None': kexp, 'algs.ssh2kex is None': not kexp,
+               'algs.ssh2kex.kex_algorithms': ['curve25519-sha256'] + ([GEXN] if gexin else []),
+               'algs.ssh2kex.dh_modulus_sizes()': ({GEXN: size} if size is not None else {}),
+               'banner': None if ban == 'none' else Opaque(), 'banner is not None': ban != 'none', 'banner is None': ban == 'none',
+               'banner.software': None if ban in ('none', 'nosoft') else ban, 'client_audit': False, 'dh_rate_test_notes': ''}
+        try:
+            finals = Interp(call_hook=hook, effect_names=('_add_terrapin_warning',)).run(ppf.body, env)
+        except Unknown as ex:
+            raise AnalysisError('post_process_findings cannot be interpreted for the suppression rule: %s' % ex)
+        want_gex = kexp and gexin and size == 2048 and ban.startswith('OpenSSH')
+        for fe in finals:
+            rep.evals()
+            r = fe.get('<return>')
+            if fe.get('<outcome>') != 'return' or not isinstance(r, tuple) or not isinstance(r[0], list) or any(isinstance(x, Opaque) for x in r[0]):
+                raise AnalysisError('post_process_findings: suppression list not computable (forks: %s)' % fe.get('<forks>'))
+            got_set = set(r[0])
+            want_set = {'<%s>' % n for n in NOT_ENABLED} | ({GEXN} if want_gex else set())
+            if got_set != want_set:
+                bad.append(({'kex': kexp, 'gex offered': gexin, 'modulus': size, 'banner': ban}, sorted(got_set - want_set), sorted(want_set - got_set)))
+    rep.floor('suppress', 'suppression rows interpreted', nrows, 28)
+    rep.check('suppress', 'the suppression list holds exactly the not-enabled Terrapin-shaped names plus the GEX name iff the OpenSSH 2048-bit fallback was observed (%d rows)' % nrows, not bad, ppf,
+              'recommendation suppression list is wrong: with %s it %s' % ((bad[0][0], ('also suppresses %s' % bad[0][1]) if bad[0][1] else ('no longer suppresses %s' % bad[0][2])) if bad else ({}, '')),
+              stmt='suppression list contents', sample={'rule': 'suppress', 'rows': nrows})
     for k, v, n in writers:
         if k == 'append':
             # the same block adds the explanatory note
